@@ -626,7 +626,14 @@ func truncFunctionCalculator(parameters []*variants.Variant,
 	if err1 != nil {
 		return nil, err1
 	}
-	result := variants.VariantFromLong(int64(math.Trunc(value.AsDouble())))
+	truncated := math.Trunc(value.AsDouble())
+	// Not a number, an infinity or a value beyond the range of a long integer has no integer part to return
+	if math.IsNaN(truncated) || truncated < -9223372036854775808.0 || truncated >= 9223372036854775808.0 {
+		err := errors.NewExpressionError("", "WRONG_PARAM_VALUE",
+			"Expected a number within the range of a long integer", 0, 0)
+		return nil, err
+	}
+	result := variants.VariantFromLong(int64(truncated))
 
 	return result, nil
 }
